@@ -6,6 +6,7 @@
     oracle any more and nothing below is refuted. *)
 From Coq Require Import ZArith List Bool.
 From Cicada Require Import Model.Jobs Model.Term Proofs.TermProofs Proofs.JobsSpec Proofs.JobsInv Proofs.TermSim.
+From Cicada Require Import Model.WaitTerm Proofs.WaitTermProofs.
 Import ListNotations.
 Local Open Scope Z_scope.
 
@@ -220,6 +221,123 @@ Example C07_nonvacuous :
   outs (k (Term.run cfg0 w_session)) = [ODone 1 101 15].
 Proof. vm_compute. repeat split. Qed.
 
+
+(** ---------- round 9: the foreground wait against an ORACLE kernel (Model/WaitTerm.v).
+    [wait_fg_o c fuel q kk gid pids v rest ow m g] is wait_fg_job as Term.v has it
+    (the same [wait_body] per iteration, the same return test, the same [finish]) run
+    on the answers [q] of waitpid(-1, WUNTRACED|WCONTINUED): [RStatus e] for ANY child
+    (member or foreign; exit, signal, stop, continue; any order) or [REchild].
+    Kernel behaviour that is HYPOTHESIS, not proved:
+      H1 the state of a child is what its last delivered status says ([settled_in]:
+         the last status of the pid is not a continue -- a member stopped and then
+         continued is NOT settled);
+      K4 ([K4_oracle]) ECHILD is answered only when every member has been reaped by a
+         status delivered inside this wait.
+    Out-of-fuel is excluded by the hypothesis that the loop returned; [C07_wait_fuel_suffices]. *)
+
+(** If the wait returns, then: it consumed a prefix [used] of the answers; every member
+    of the job is settled by the statuses consumed; the Wait recorded in the ghost
+    history carries exactly those statuses; and the status returned is the one of the
+    last status of the LAST member (which is not a continue). *)
+Theorem C07_wait_returns_settled : forall c fuel q kk gid pids v rest ow m g s' st left,
+  K4_oracle pids q ->
+  wait_fg_o c fuel q kk gid pids v rest ow m g = WReturned s' st left ->
+  exists used, q = used ++ left /\
+    gh s' = g ++ [Wait gid pids (statuses used)] /\
+    (forall p, In p pids -> settled_in (statuses used) p) /\
+    (pids = [] -> st = 0) /\
+    (pids <> [] -> exists e, last_of (last pids 0) (statuses used) = Some e /\ is_cont e = false /\
+                             st = ev_status e).
+Proof. exact wait_returns_settled. Qed.
+Check C07_wait_returns_settled : forall c fuel q kk gid pids v rest ow m g s' st left,
+  K4_oracle pids q ->
+  wait_fg_o c fuel q kk gid pids v rest ow m g = WReturned s' st left ->
+  exists used, q = used ++ left /\
+    gh s' = g ++ [Wait gid pids (statuses used)] /\
+    (forall p, In p pids -> settled_in (statuses used) p) /\
+    (pids = [] -> st = 0) /\
+    (pids <> [] -> exists e, last_of (last pids 0) (statuses used) = Some e /\ is_cont e = false /\
+                             st = ev_status e).
+
+(** The terminal goes back exactly then (no kernel hypothesis): in the state after the
+    return the owner is the shell when the terminal had been handed over ([back v]: fg
+    always, a launch iff term_given), the mask is unchanged and the line goes on; and on
+    EVERY proper prefix of the answers consumed the shell is still blocked inside the
+    loop, in mode Waiting on this job, with the owner it entered the wait with. *)
+Theorem C07_wait_gives_back_terminal : forall c fuel q kk gid pids v rest ow m g s' st left,
+  wait_fg_o c fuel q kk gid pids v rest ow m g = WReturned s' st left ->
+  owner s' = (if back v then c_sh c else ow) /\ md s' = Between rest /\ smask s' = m /\
+  exists used, q = used ++ left /\
+    forall q1 q2, used = q1 ++ q2 -> q2 <> [] ->
+      exists s1 st1 w1,
+        wait_fg_o c fuel q1 kk gid pids v rest ow m g = WBlocked s1 st1 /\
+        owner s1 = ow /\ md s1 = Waiting gid pids w1 v rest /\ wevs s1 = statuses q1.
+Proof. exact wait_gives_back_terminal. Qed.
+Check C07_wait_gives_back_terminal : forall c fuel q kk gid pids v rest ow m g s' st left,
+  wait_fg_o c fuel q kk gid pids v rest ow m g = WReturned s' st left ->
+  owner s' = (if back v then c_sh c else ow) /\ md s' = Between rest /\ smask s' = m /\
+  exists used, q = used ++ left /\
+    forall q1 q2, used = q1 ++ q2 -> q2 <> [] ->
+      exists s1 st1 w1,
+        wait_fg_o c fuel q1 kk gid pids v rest ow m g = WBlocked s1 st1 /\
+        owner s1 = ow /\ md s1 = Waiting gid pids w1 v rest /\ wevs s1 = statuses q1.
+
+(** fuel: one unit per answer delivered, plus one *)
+Theorem C07_wait_fuel_suffices : forall c fuel q kk gid pids v rest ow m g,
+  (length q < fuel)%nat -> wait_fg_o c fuel q kk gid pids v rest ow m g <> WOutOfFuel.
+Proof. exact wait_fuel_suffices. Qed.
+Check C07_wait_fuel_suffices : forall c fuel q kk gid pids v rest ow m g,
+  (length q < fuel)%nat -> wait_fg_o c fuel q kk gid pids v rest ow m g <> WOutOfFuel.
+
+(** non-vacuity: the job 101 | 102 | 103 just launched in the foreground; the kernel
+    delivers stop(101), exit(102), exit of the foreign child 200, cont(101), exit(103)
+    -- two members settled, 101 runs again: the wait goes on, the job keeps the
+    terminal -- then exit(101): the wait returns, status 7 of the last member 103, the
+    terminal is the shell's; one more status stays undelivered. *)
+Definition w3_start := Term.run cfg0 [ALaunch [101; 102; 103] false].
+Definition w3_q : list reply :=
+  [RStatus (StoppedE 101 19); RStatus (Exited 102 0); RStatus (Exited 200 5); RStatus (Continued 101);
+   RStatus (Exited 103 7); RStatus (Exited 101 3); RStatus (Exited 300 0)].
+Definition w3_run (q : list reply) : wout :=
+  wait_fg_o cfg0 8 q (k w3_start) 101 [101; 102; 103] (VLaunch true) [] (owner w3_start) (smask w3_start) (gh w3_start).
+Definition wview (o : wout) : option (bool * Z * mode * Z * list reply) :=
+  match o with
+  | WReturned s st l => Some (true, owner s, md s, st, l)
+  | WBlocked s st => Some (false, owner s, md s, st, [])
+  | WOutOfFuel => None
+  end.
+Example C07_wait_nonvacuous :
+  md w3_start = Waiting 101 [101; 102; 103] [] (VLaunch true) [] /\ owner w3_start = 101 /\
+  wview (w3_run w3_q) = Some (true, 1, Between [], 7, [RStatus (Exited 300 0)]) /\
+  wview (w3_run (firstn 5 w3_q)) = Some (false, 101, Waiting 101 [101; 102; 103] [103; 102] (VLaunch true) [], 7, []) /\
+  wview (w3_run (firstn 2 w3_q)) = Some (false, 101, Waiting 101 [101; 102; 103] [102; 101] (VLaunch true) [], 0, []) /\
+  K4_oracle [101; 102; 103] w3_q /\ (length w3_q < 8)%nat /\
+  (* ECHILD breaks the loop as well *)
+  wview (w3_run [RStatus (Exited 101 0); REchild]) = Some (true, 1, Between [], 0, []).
+Proof.
+  split; [vm_compute; reflexivity|]. split; [vm_compute; reflexivity|].
+  split; [vm_compute; reflexivity|]. split; [vm_compute; reflexivity|].
+  split; [vm_compute; reflexivity|]. split; [|split; [vm_compute; repeat constructor|vm_compute; reflexivity]].
+  intros evs1 post E. exfalso.
+  assert (I : In REchild w3_q) by (rewrite E; apply in_or_app; right; left; reflexivity).
+  cbn in I. repeat (destruct I as [I|I]; [discriminate I|]). exact I.
+Qed.
+
+(** The loop the sessions of Model/Term.v run ([Term.settle], entered by a foreground
+    launch or fg through [enter_wait] and resumed after every kernel event) IS the
+    oracle loop on the answers Term.v's own kernel model gives ([kreplies]: [next_status],
+    ECHILD when every child is reaped, else the call blocks): same session state up to
+    the [procs] field, which the oracle loop does not touch. *)
+Theorem C07_settle_is_oracle_wait : forall c gid pids v rest ow m g fuel kk kt w we status,
+  core_eq kk kt ->
+  match wait_o c fuel (kreplies fuel (procs kt)) kk gid pids w v rest ow m g we status with
+  | WReturned s' _ _ => st_eq s' (settle c fuel (waiting_st kt gid pids w v rest ow m g we))
+  | WBlocked s1 _ => st_eq s1 (settle c fuel (waiting_st kt gid pids w v rest ow m g we))
+  | WOutOfFuel => exists k1 w1 we1,
+      settle c fuel (waiting_st kt gid pids w v rest ow m g we) = waiting_st k1 gid pids w1 v rest ow m g we1
+  end.
+Proof. exact settle_is_wait_o. Qed.
+
 Print Assumptions C07_prompt_owner.
 Print Assumptions C07_owner_cases.
 Print Assumptions C07_bg_never_owner.
@@ -230,3 +348,7 @@ Print Assumptions C07_give_terminal_mask.
 Print Assumptions C07_simulation.
 Print Assumptions C07_wait_exact.
 Print Assumptions C07_jobs_exact.
+Print Assumptions C07_wait_returns_settled.
+Print Assumptions C07_wait_gives_back_terminal.
+Print Assumptions C07_wait_fuel_suffices.
+Print Assumptions C07_settle_is_oracle_wait.
